@@ -367,6 +367,16 @@ def _main(a, t0):
             errors.append((r["key"], r["error"]))
             continue
         s = r["summary"]
+        if s.get("error"):
+            # the translator itself failed on this function (a construct it mishandles).  On source the ledger
+            # knows that is a checker failure; on changed code the function is undecided -- the rest of the
+            # check (other functions, frame obligations, bounded stand-in) still reports what it finds.
+            k = f"{s['function']}[{s['behavior']}]"
+            known = ledger0["functions"].get(k, {}).get("hash") if ledger0 else None
+            if known is not None and s.get("source_hash") not in (None, known):
+                unsupported.append((k, "translator error on changed source: " + s["error"].splitlines()[0][:200]))
+                s = dict(s)
+                s["error"] = None
         for e in r.get("finding_errors", []):
             errors.append((r["key"], "known-finding predicate: " + e))
         functions.append({"function": s["function"], "behavior": s["behavior"], "source_hash": s["source_hash"],
